@@ -123,7 +123,9 @@ func c01RunTransports(c *kit.Ctx) {
 		}
 		waitUntil(func() bool { return media.Get(path) != nil }, 5*time.Second)
 		pub := &c01tPub{video: map[uint32][]byte{}, audio: map[uint32][]byte{}, nals: map[uint32][]byte{}, rtcp: map[uint32][]byte{}}
-		var ctlTCP, ctlUDP, ctlPublished int64     // control packets received intact on rtsp-tcp / rtsp-udp, and published
+		var ctlTCP, ctlUDP, ctlPublished int64 // control packets received intact on rtsp-tcp / rtsp-udp, and published
+		var ctlMu sync.Mutex
+		ctlTCPIDs := map[uint32]bool{}             // ids of the control packets the rtsp-tcp player received intact
 		mcLeave := make(chan struct{})             // closed by the publisher when the companion multicast member shall leave
 		var mcLeft int32                           // set when it has left
 		var mcLeftAt uint32                        // id being published when it had left
@@ -182,6 +184,9 @@ func c01RunTransports(c *kit.Ctx) {
 				case 5:
 					if pub.checkRTCP(it.Frame.Data) {
 						atomic.AddInt64(&ctlTCP, 1)
+						ctlMu.Lock()
+						ctlTCPIDs[binary.BigEndian.Uint32(it.Frame.Data[20:])] = true
+						ctlMu.Unlock()
 					} else {
 						r.fail("control-channel packet differs from what was published")
 					}
@@ -633,13 +638,40 @@ func c01RunTransports(c *kit.Ctx) {
 		c.Count("control_packets_received_rtsp-udp", atomic.LoadInt64(&ctlUDP))
 		for _, r := range recs {
 			if (r.name == "rtsp-tcp" || r.name == "rtsp-udp") && r.bad == "" && len(r.ids) > 0 && atomic.LoadInt64(&ctlPublished) > 10 {
-				got := atomic.LoadInt64(&ctlTCP)
 				if r.name == "rtsp-udp" {
-					got = atomic.LoadInt64(&ctlUDP)
+					if atomic.LoadInt64(&ctlUDP) == 0 {
+						c.Violation("C01:transport:control-channel-packets-not-delivered-to-negotiated-destination:"+r.name,
+							map[string]interface{}{"transport": r.name, "published": atomic.LoadInt64(&ctlPublished), "received": 0})
+					}
+					continue
 				}
-				if got == 0 || (r.name == "rtsp-tcp" && got < atomic.LoadInt64(&ctlPublished)-2) {
+				// rtsp-tcp is reliable and ordered across channels: every control packet published before the last video
+				// packet the player received must have arrived (how far the player got before the run ended is not judged)
+				r.mu.Lock()
+				lastVideo, firstVideo := uint32(0), r.ids[0]
+				for _, id := range r.ids {
+					if id > lastVideo {
+						lastVideo = id
+					}
+					if id < firstVideo {
+						firstVideo = id
+					}
+				}
+				r.mu.Unlock()
+				var missing []uint32
+				pub.mu.Lock()
+				ctlMu.Lock()
+				for id := range pub.rtcp {
+					if id > firstVideo && id+2 < lastVideo && !ctlTCPIDs[id] {
+						missing = append(missing, id)
+					}
+				}
+				ctlMu.Unlock()
+				pub.mu.Unlock()
+				if len(missing) > 0 {
 					c.Violation("C01:transport:control-channel-packets-not-delivered-to-negotiated-destination:"+r.name,
-						map[string]interface{}{"transport": r.name, "published": atomic.LoadInt64(&ctlPublished), "received": got})
+						map[string]interface{}{"transport": r.name, "published": atomic.LoadInt64(&ctlPublished), "received": atomic.LoadInt64(&ctlTCP),
+							"first_video_id_received": firstVideo, "last_video_id_received": lastVideo, "missing_control_ids": missing})
 				}
 			}
 		}
